@@ -119,6 +119,9 @@ pub struct CbCfg {
     pub threshold: f64,
     pub min_calls: Option<usize>,
     pub wait_ms: u64,
+    /// this many microseconds (< 1000) are shaved off the configured wait: a wait with a
+    /// sub-millisecond part (on whole-millisecond instants the shield still ends at wait_ms)
+    pub wait_shave_us: u64,
     pub permitted: usize,
     pub slow_ms: Option<u64>,
     pub slow_rate: f64,
@@ -130,6 +133,9 @@ pub struct CbCfg {
     /// builder order: the (type-changing) failure_classifier call comes first and every other
     /// setting after it, instead of last
     pub classifier_first: bool,
+    /// the configuration starts from a preset (`CircuitBreakerLayer::fast_fail()`) and overrides
+    /// every setting afterwards, instead of starting from `builder()`
+    pub preset_start: bool,
 }
 
 /// Gate and invocation log of the (optionally gated) fallback function.
@@ -184,7 +190,7 @@ impl CbCfg {
             self.slow_rate,
             if self.custom_classifier && self.classifier_first { "custom(set first)" } else if self.custom_classifier { "custom" } else { "default" },
             self.fallback,
-            if self.fallback_gated { "(pending until released)" } else { "" }
+            if self.fallback_gated { "(pending until released)" } else if self.wait_shave_us > 0 { " (wait minus sub-ms part)" } else if self.preset_start { " (fast_fail() preset, then overridden)" } else { "" }
         )
     }
     pub fn site(&self) -> &'static str {
@@ -220,7 +226,15 @@ fn wait_of(cfg: &CbCfg) -> Duration {
     if cfg.wait_ms >= WAIT_FOREVER {
         Duration::MAX
     } else {
-        Duration::from_millis(cfg.wait_ms)
+        Duration::from_micros(cfg.wait_ms * 1000 - cfg.wait_shave_us)
+    }
+}
+
+fn start(cfg: &CbCfg) -> tower_resilience_circuitbreaker::CircuitBreakerConfigBuilder<tower_resilience_circuitbreaker::DefaultClassifier> {
+    if cfg.preset_start {
+        CircuitBreakerLayer::fast_fail()
+    } else {
+        CircuitBreakerLayer::builder()
     }
 }
 
@@ -286,9 +300,9 @@ pub fn build_full(cfg: &CbCfg, inner: Shared, origin: tokio::time::Instant, nest
     }
     let h: Box<dyn Cb> = if cfg.custom_classifier {
         let layer = if cfg.classifier_first {
-            settings(CircuitBreakerLayer::builder().failure_classifier(classify), cfg, &inner, origin, &log, &nest, &gate_s).build()
+            settings(start(cfg).failure_classifier(classify), cfg, &inner, origin, &log, &nest, &gate_s).build()
         } else {
-            settings(CircuitBreakerLayer::builder(), cfg, &inner, origin, &log, &nest, &gate_s).failure_classifier(classify).build()
+            settings(start(cfg), cfg, &inner, origin, &log, &nest, &gate_s).failure_classifier(classify).build()
         };
         let svc = layer.layer_fn(gi);
         if cfg.fallback {
@@ -297,7 +311,7 @@ pub fn build_full(cfg: &CbCfg, inner: Shared, origin: tokio::time::Instant, nest
             Box::new(svc)
         }
     } else {
-        let layer = settings(CircuitBreakerLayer::builder(), cfg, &inner, origin, &log, &nest, &gate_s).build();
+        let layer = settings(start(cfg), cfg, &inner, origin, &log, &nest, &gate_s).build();
         let svc = layer.layer_fn(gi);
         if cfg.fallback {
             Box::new(svc.with_fallback(fb))
